@@ -628,15 +628,6 @@ def fixed_cases():
     return out
 
 
-def pre_build(ctx):
-    # re-translate candidate_graph/*.py (Gen/CandGraph_gen.v, tied by Proofs/CandGraphTie.v)
-    import translate_candgraph
-
-    ok, msg = translate_candgraph.regenerate()
-    if not ok:
-        raise RuntimeError("translator refused candidate_graph/*.py: %s" % msg)
-
-
 def run(ctx):
     rng = ctx.rng
     n = 1000 if ctx.quick() else 12000
